@@ -191,3 +191,80 @@ def else_after_return(root):
 
 
 ALL.update({"flip_comparisons": flip_comparisons, "else_after_return": else_after_return})
+
+
+class _TempReturn(ast.NodeTransformer):
+    """`return <expr>` (not a bare name / constant) -> `_ret = <expr>; return _ret`."""
+
+    def visit_Lambda(self, node):
+        return node
+
+    def visit_Return(self, node):
+        if node.value is None or isinstance(node.value, (ast.Name, ast.Constant)):
+            return node
+        if any(isinstance(n, (ast.Yield, ast.YieldFrom, ast.Await)) for n in ast.walk(node.value)):
+            return node
+        a = ast.copy_location(ast.Assign(targets=[ast.Name(id="_ret", ctx=ast.Store())], value=node.value), node)
+        r = ast.copy_location(ast.Return(value=ast.Name(id="_ret", ctx=ast.Load())), node)
+        return [a, r]
+
+
+class _TernaryToIf(ast.NodeTransformer):
+    """`x = a if c else b` (single plain-name target) -> `if c: x = a` / `else: x = b`."""
+
+    def visit_Assign(self, node):
+        if len(node.targets) == 1 and isinstance(node.targets[0], ast.Name) and isinstance(node.value, ast.IfExp):
+            t = node.targets[0].id
+            mk = lambda v: ast.copy_location(ast.Assign(targets=[ast.Name(id=t, ctx=ast.Store())], value=v), node)
+            return ast.copy_location(ast.If(test=node.value.test, body=[mk(node.value.body)], orelse=[mk(node.value.orelse)]), node)
+        return node
+
+
+class _NameCondition(ast.NodeTransformer):
+    """`if <call or comparison>:` (no elif, not inside a loop header) -> `_cond = <test>` / `if _cond:`."""
+
+    def visit_If(self, node):
+        self.generic_visit(node)
+        if isinstance(node.test, (ast.Compare, ast.Call, ast.BoolOp)) and not any(isinstance(n, (ast.NamedExpr, ast.Yield, ast.Await)) for n in ast.walk(node.test)):
+            a = ast.copy_location(ast.Assign(targets=[ast.Name(id="_cond", ctx=ast.Store())], value=node.test), node)
+            node.test = ast.copy_location(ast.Name(id="_cond", ctx=ast.Load()), node)
+            return [a, node]
+        return node
+
+
+class _ListCompToLoop(ast.NodeTransformer):
+    """`x = [e for v in xs if c]` (one generator, plain-name target, target not read by the comprehension) -> explicit loop with append."""
+
+    def visit_Assign(self, node):
+        v = node.value
+        if len(node.targets) == 1 and isinstance(node.targets[0], ast.Name) and isinstance(v, ast.ListComp) and len(v.generators) == 1 and not v.generators[0].is_async:
+            t = node.targets[0].id
+            if any(isinstance(n, ast.Name) and n.id == t for n in ast.walk(v)):
+                return node
+            g = v.generators[0]
+            body = ast.Expr(value=ast.Call(func=ast.Attribute(value=ast.Name(id=t, ctx=ast.Load()), attr="append", ctx=ast.Load()), args=[v.elt], keywords=[]))
+            for c in reversed(g.ifs):
+                body = ast.If(test=c, body=[body], orelse=[])
+            init = ast.copy_location(ast.Assign(targets=[ast.Name(id=t, ctx=ast.Store())], value=ast.List(elts=[], ctx=ast.Load())), node)
+            loop = ast.copy_location(ast.For(target=g.target, iter=g.iter, body=[body], orelse=[]), node)
+            return [init, loop]
+        return node
+
+
+def temp_return(root):
+    _apply(root, _TempReturn)
+
+
+def ternary_to_if(root):
+    _apply(root, _TernaryToIf)
+
+
+def name_condition(root):
+    _apply(root, _NameCondition)
+
+
+def listcomp_to_loop(root):
+    _apply(root, _ListCompToLoop)
+
+
+ALL.update({"temp_return": temp_return, "ternary_to_if": ternary_to_if, "name_condition": name_condition, "listcomp_to_loop": listcomp_to_loop})
